@@ -19,3 +19,19 @@ func VerifLsWalkCount(ranges []nets.IPRange, limit uint64) uint64 {
 	})
 	return n
 }
+
+// VerifLsWalkConfigured runs walkConfiguredIPRanges of the crd IPAM over the ranges (under the read lock, callback never
+// stops the walk) and returns the visited addresses in order; ok is false if i is not the crd IPAM.
+func VerifLsWalkConfigured(i IPAM, ranges []nets.IPRange) (visited []uint32, ok bool) {
+	ci, ok := i.(*crdIpam)
+	if !ok {
+		return nil, false
+	}
+	ci.cacheLock.RLock()
+	defer ci.cacheLock.RUnlock()
+	ci.walkConfiguredIPRanges(ranges, func(ip net.IP) bool {
+		visited = append(visited, nets.IPToInt(ip))
+		return false
+	})
+	return visited, true
+}
